@@ -332,6 +332,23 @@ exec_c16h(const vcase *vc)
 		}
 		nng_http *conn = (nng_http *) nng_aio_get_output(aio, 0);
 		H_OK(nng_http_set_uri(conn, "/x", NULL));
+		// round 7: "pad T" - a padding header sized so that the whole request head is exactly T bytes (T around the connection's
+		// fixed 8160-byte buffer): the head is 16 + 2 + "Host: 127.0.0.1:<port>" + 2 + "X-Pad: " + L + 2 + 2 bytes long
+		long padT = 0;
+		for (int i = 2; i < vc->nops; i++)
+			if (strcmp(vc->ops[i].name, "pad") == 0)
+				padT = vop_arg(&vc->ops[i], 0, 0);
+		if (padT > 0) {
+			char hostv[64];
+			snprintf(hostv, sizeof hostv, "Host: 127.0.0.1:%d", port);
+			long fixed = 15 + 2 + (long) strlen(hostv) + 2 + 7 + 2 + 2;
+			long L     = padT - fixed;
+			if (L >= 1 && L < 20000) {
+				std::string v((size_t) L, 'p');
+				H_OK(nng_http_set_header(conn, "X-Pad", v.c_str()));
+			} else
+				padT = 0;
+		}
 		nng_http_transact(conn, aio);
 		Bytes  rx;
 		size_t he = 0;
@@ -341,7 +358,16 @@ exec_c16h(const vcase *vc)
 			if (he == 0)
 				vs_sleep(1);
 		}
-		VR_CHECK(he != 0, "C16:no-request", "nng_http_transact sent no complete request");
+		VR_CHECK(he != 0, "C16:no-request", "nng_http_transact sent no complete request%s", padT ? " (padded head)" : "");
+		vr_trace("request head %zu bytes (pad target %ld)", he, padT);
+		if (padT > 0) {
+			if ((long) he == padT)
+				vr_tag("padded_head_exact");
+			if (he == 8160)
+				vr_tag("head_fills_buffer_exactly");
+			if (he > 8160)
+				vr_tag("head_beyond_buffer");
+		}
 		wsref::Head rq = wsref::parse_head(rx, he);
 		VR_CHECK(rq.wellformed && rq.first == "GET /x HTTP/1.1" && !rq.get("Host").empty(), "C16:emitted-request", "request '%s' (Host '%s')", rq.first.c_str(), rq.get("Host").c_str());
 		vr_tag("request_checked");
@@ -469,6 +495,8 @@ gen_c16h()
 		for (auto &l : reqs)
 			t << l << "\n";
 	} else {
+		if (*pbt::welem<int>({{2, 0}, {1, 1}}))
+			t << "pad " << *gen::element(8158, 8159, 8160, 8160, 8161, 8162, 200, 4000, 8192, 9000) << "\n";
 		t << "resp " << *gen::element(200, 200, 404, 500) << " " << *pbt::range<int>(0, 1) << " " << *gen::element(0, 1, 10, 2999, 3000, 3001, 8192, 70000) << " "
 		  << *pbt::welem<int>({{6, 0}, {1, 1}, {1, 2}, {1, 3}, {1, 4}}) << " " << *pbt::range<int>(0, 1000) << "\n";
 	}
@@ -487,7 +515,7 @@ main(int argc, char **argv)
 	sp.watchdog_s = 90;
 	sp.rule = "world 0: nng_http_server (static handler, POST echo handler collecting up to 64 KiB) and a raw TCP client sending a pipeline of up to 12 requests "
 	          "(GET / HEAD static, POST echo with 0..65536-byte bodies, unknown path, wrong method, oversized body, request line without version, bad version "
-	          "token, header line without colon, bare method) in generated segmentations; world 1: nng_http_client transaction against a raw TCP server "
+	          "token, header line without colon, bare method) in generated segmentations; world 1: nng_http_client transaction (request head padded to 8158..8162 / 8192 / 9000 bytes around the connection's fixed 8160-byte buffer in a third of the cases) against a raw TCP server "
 	          "answering with status 200/404/500 and a 0..70000-byte body by Content-Length or chunked (generated chunk sizes, upper/lower-case hex, "
 	          "extensions, trailers) or malformed (bad chunk-size digit, missing CRLF after chunk data, malformed status line, header without colon), in "
 	          "generated segmentations. Oracle: valid requests get 200 with the exact body, invalid ones an error status or a close, responses nng emits are "
